@@ -57,6 +57,9 @@ func init() {
 			}
 			fixed = append(fixed, mkShapeProgram("Y"+itoa(1000+i), sh))
 		}
+		for i, sh := range optimiserBait {
+			fixed = append(fixed, mkShapeProgram("O"+itoa(100+i), sh))
+		}
 		spec := &diffSpec{
 			profiles: []*profile{controlFlowProfile(), effectProfile(), scopingProfile(), delegationProfile(), bystanderProfile()}, batchSize: 30, batches: rs.vol(20, 500),
 			fixed: fixed,
@@ -248,5 +251,6 @@ func c12HostProfile() *profile {
 	p.maxStmts = 8
 	p.maxDepth = 3
 	p.w["genlit"] = 0
+	p.elems = []string{"int"} // the injected constructs yield ints
 	return p
 }
